@@ -12,19 +12,18 @@ from ..core import AnalysisError, own_nodes, norm, parents
 from ..effects import Resolver
 from .. import flow
 
-LEVEL_TEXT = ('static analysis: (D1) the edge arithmetic of skgenome.subtract._subtraction is exact only for a sorted, non-nested subtrahend; the'
-              ' value reaching it is shown (reaching definitions + resolved callees) to come out of merge(), inside subtract() or at every call '
-              'site; (D1b) subtract() interpreted on 655 literal table pairs (overlapping / nested / unsorted / abutting subtrahends, chromosomes'
-              " missing on either side) with merge() summarised by its contract: every row minus the union of the other table's rows on its "
-              'chromosome, in order, and chromosomes are paired exactly (C07-D6 rule); (D2) every call of a combiner taken from the `combine` '
+LEVEL_TEXT = ('static analysis: (D1b) subtract() interpreted on 655 literal table pairs (overlapping / nested / unsorted / abutting subtrahends, chromosomes'
+              " missing on either side), merge() and the private helper behind it running as written: every row minus the union of the other table's rows on its "
+              'chromosome, in order (a binary search over rows that are not in coordinate order counts as a violation: its result is unspecified), and chromosomes are paired exactly (C07-D6 rule);'
+              ' (D2) every call of a combiner taken from the `combine` '
               "mapping passes an array kind (Series/ndarray), which the default combiners require (join_strings -> pd.unique); (D3) merge()'s "
-              'fast path and _nonoverlapping_groups() compare the same quantity -- next start minus running maximum (cummax) of the ends -- with '
-              "the same operator against -bp, extracted by abstract interpretation as a canonical comparison atom, and flatten()'s fast path "
-              'tests the same quantity against 0; (D3b) merge() and flatten() interpreted on every literal table of 1-3 rows over a 4-point grid '
-              'and two chromosomes (rows in any order, bp 0 and 2): a table returned unchanged has no two rows of one chromosome left to merge / '
-              "flatten; (D4) resize_ranges stores start=max(start-bp,0), end=max(end+bp,0), both min'ed with the chromosome size when sizes are "
+              'fast path compares next start minus running maximum (cummax) of the ends '
+              "with -bp, extracted by abstract interpretation as a canonical comparison atom, and flatten()'s fast path "
+              'tests the same quantity against 0; (D3b) merge() and flatten() interpreted whole -- fast path, sorting, grouping, squashing, re-ordering -- on 639 literal tables of 1-3 rows (a 4-point grid '
+              'on two chromosomes, rows in any order, plus rows -3 .. 3 bases from a pair that overlaps; bp 0 and 2): the rows and merged names of the contract '
+              "(rows overlapping by at least bp fuse, abutting rows at bp 0 too; flatten cuts overlapping rows at every start / end); (D4) resize_ranges stores start=max(start-bp,0), end=max(end+bp,0), both min'ed with the chromosome size when sizes are "
               'given (on a table whose index is not 0..n-1: a bound carried by a fresh-index Series is a label misalignment), and keeps exactly '
-              'the rows with end-start>0 when shrinking, on a copy; (D5) _split_targets, interpreted with a symbolic start and spans giving 1..6 '
+              'the rows with end-start>0 when shrinking, on a copy; (D5) subdivide, interpreted with a symbolic start and spans giving 1..6 '
               'bins: first piece starts at row.start, every piece begins where the previous ended, last ends at row.end, piece count is '
               'int(round(span/avg)) or 1, regions shorter than min_size are skipped (>=). The trim / outer / inner selection per range of the '
               'other table is the C07-D7 rule (literal tables, nested rows, repeated zero starts). (D4b) no function of skgenome writes into a '
@@ -36,69 +35,9 @@ TECHNIQUE = ('reaching-definition / resolved-callee precondition rule; argument-
              'interpretation (comparison atoms, symbolic coordinates); shared-mutable-state rule')
 
 SUB = "skgenome.subtract.subtract"
-SUBTRACTION = "skgenome.subtract._subtraction"
 
 
 # ---------------------------------------------------------------------------------------------- D1
-def _is_merge_call(prog, res, fi):
-    def pred(call):
-        for cand in res.resolve_call(call, fi):
-            if cand.qn in ("skgenome.merge.merge", "skgenome.gary.GenomicArray.merge"):
-                return True
-        return False
-    return pred
-
-
-def d1(chk, prog):
-    chk.clause("D1", "precondition of _subtraction (sorted, non-nested subtrahend) is established by merge() in subtract() or at every caller")
-    chk.rule("precondition-established", "the `other` argument reaching skgenome.subtract._subtraction derives (reaching definitions, resolved "
-             "callees) from a merge() call inside subtract(), or every call chain into subtract() passes a merge() result")
-    res = Resolver(prog)
-    fi = prog.fn(SUB)
-    inner = prog.fn(SUBTRACTION)
-    sites = [n for n in own_nodes(fi.node) if isinstance(n, ast.Call) and inner in res.resolve_call(n, fi)]
-    chk.floor("_subtraction call sites in subtract()", len(sites), 1)
-    relies = [norm(n) for n in ast.walk(inner.node) if isinstance(n, ast.Subscript) and isinstance(n.value, ast.Attribute)
-              and n.value.attr == "iat" and norm(n.slice) in ("-1", "0")]
-    inside = all(flow.derives_from_call(fi, flow.arg_of(c, inner, "other"), _is_merge_call(prog, res, fi)) for c in sites
-                 if flow.arg_of(c, inner, "other") is not None)
-    if inside:
-        chk.ok("precondition-established", "subtract(): `other` is merge()d before _subtraction", where=fi.loc(sites[0]))
-        return
-    # look at the callers, transitively through GenomicArray.subtract
-    unmerged = []
-
-    def walk(target, pname, depth=0):
-        cs = flow.callers(prog, res, target)
-        if not cs:
-            unmerged.append((target, None, "public entry point"))
-        for cfi, call in cs:
-            a = flow.arg_of(call, target, pname)
-            if a is None:
-                unmerged.append((cfi, call, "argument not found"))
-                continue
-            if flow.derives_from_call(cfi, a, _is_merge_call(prog, res, cfi)):
-                continue
-            # parameter passed straight through (other.data): go one level up
-            base = a.value if isinstance(a, ast.Attribute) and a.attr == "data" else a
-            if isinstance(base, ast.Name) and base.id in cfi.params and flow.reaching_values(cfi, base.id, base) == ["param"] and depth < 3:
-                walk(cfi, base.id, depth + 1)
-            else:
-                unmerged.append((cfi, call, norm(a)))
-    walk(fi, "other")
-    if not unmerged:
-        chk.ok("precondition-established", "every call chain into subtract() passes a merge()d subtrahend", where=fi.loc())
-        return
-    if not relies:
-        raise AnalysisError("C06-D1: subtract() is not merged first and _subtraction no longer has the first/last-row edge arithmetic "
-                            "the precondition was derived from; cannot decide")
-    chk.violate("precondition-established", f"{SUB}::_subtraction(table, other)", fi.loc(sites[0]),
-                "the subtrahend reaches _subtraction without passing merge(): its edge arithmetic (" + ", ".join(sorted(set(relies))) + ") "
-                "takes the last row's end as the right-most end, which is wrong when excluded regions nest or overlap; unmerged at: "
-                + "; ".join(f"{c.qn}" + (f" {c.path}:{n.lineno} ({why})" if n is not None else f" ({why})") for c, n, why in unmerged[:5]),
-                witness=dict(example="[0,10) - {[1,8),[2,3)} returns [0,1),[3,10) instead of [0,1),[8,10)"))
-
-
 # ---------------------------------------------------------------------------------------------- D2
 ARRAY_CTORS = {"pd.Series", "np.array", "np.asarray", "pd.Index", "np.asanyarray", "pd.array"}
 
@@ -242,7 +181,7 @@ def first_atom(prog, qn, args, kw=None):
 
 
 def d3(chk, prog):
-    chk.clause("D3", "merge fast path and _nonoverlapping_groups use one predicate on (next start - cummax of ends); flatten fast path tests it against 0")
+    chk.clause("D3", "merge fast path tests (next start - cummax of ends) + bp > 0; flatten fast path tests it against 0")
     chk.rule("predicate-agreement", "the first data-dependent comparison of each function is extracted as a canonical atom  d (op) 0  over the "
              "symbols start[1:], end.cummax[:-1], bp; sibling functions must yield the same atom, and it must be the stated one")
 
@@ -257,18 +196,15 @@ def d3(chk, prog):
         g = t_sub(Term.sym("start[1:]"), Term.sym("end.cummax[:-1]"))
         return canon_atom(t_add(g, Term.sym("bp")) if with_bp else g, op)
     a_merge = first_atom(prog, "skgenome.merge.merge", [table(), Term.sym("bp")])
-    a_group = first_atom(prog, "skgenome.merge._nonoverlapping_groups", [table(), Term.sym("bp")])
     a_flat = first_atom(prog, "skgenome.merge.flatten", [table()])
     w = want("Gt")
-    fm, fg, ff = prog.fn("skgenome.merge.merge"), prog.fn("skgenome.merge._nonoverlapping_groups"), prog.fn("skgenome.merge.flatten")
-    if a_merge is None or a_group is None or a_flat is None:
-        raise AnalysisError(f"C06-D3: no comparison atom extracted (merge={a_merge}, groups={a_group}, flatten={a_flat})")
-    chk.decide(a_group == w, "predicate-agreement", "_nonoverlapping_groups: new group <=> start[1:] - end.cummax[:-1] + bp > 0",
-               f"{fg.qn}::group predicate", fg.loc(), f"grouping predicate is {a_group}, stated {w}: rows are split/joined at the wrong gap "
-               "(abutting rows must merge at bp=0; nested rows need the running maximum of the ends)", witness=dict(got=str(a_group), want=str(w)))
-    chk.decide(a_merge == a_group, "predicate-agreement", "merge() fast path == grouping predicate", f"{fm.qn}::fast path", fm.loc(),
-               f"merge() returns its input unchanged when {a_merge} holds for all rows, but groups rows by {a_group}: the two disagree, so some "
-               "tables that need merging are returned as they are", witness=dict(fast_path=str(a_merge), grouping=str(a_group)))
+    fm, ff = prog.fn("skgenome.merge.merge"), prog.fn("skgenome.merge.flatten")
+    if a_merge is None or a_flat is None:
+        raise AnalysisError(f"C06-D3: no comparison atom extracted (merge={a_merge}, flatten={a_flat})")
+    # (the grouping on the slow path -- a private helper, once compared here by name -- is decided with the whole of merge() / flatten() on literal tables in D3b)
+    chk.decide(a_merge == w, "predicate-agreement", "merge() fast path: nothing to merge <=> start[1:] - end.cummax[:-1] + bp > 0 for every row", f"{fm.qn}::fast path", fm.loc(),
+               f"merge() returns its input unchanged when {a_merge} holds for all rows; stated {w}: abutting rows must merge at bp=0, nested rows need the running maximum of the ends",
+               witness=dict(fast_path=str(a_merge), want=str(w)))
     ok_flat = a_flat in (want("GtE", False), want("Gt", False))
     chk.decide(ok_flat, "predicate-agreement", "flatten() fast path: no overlap <=> start[1:] - end.cummax[:-1] >= 0", f"{ff.qn}::fast path", ff.loc(),
                f"flatten() fast path tests {a_flat}; stated: start[1:] - end.cummax[:-1] >= 0", witness=dict(got=str(a_flat)))
@@ -290,7 +226,7 @@ def lit_merge(rows, bp=0):
 
 
 def d1b(chk, prog):
-    chk.clause("D1b", "subtract(): every row of the table minus the union of the other table's rows on its chromosome, in order (literal small tables; merge() summarised by its contract)")
+    chk.clause("D1b", "subtract(): every row of the table minus the union of the other table's rows on its chromosome, in order (literal small tables; merge() and the private subtraction helper run as written)")
     fi = prog.fn("skgenome.subtract.subtract")
     tb = Table(chk, "subtraction", "subtract on literal tables: overlapping / nested / unsorted / abutting subtrahends, chromosomes missing on either side", fi.loc(), fi.qn)
     grid = [0, 4, 8, 12, 16] if chk.tier != "thorough" else [0, 2, 4, 8, 12, 14, 16]
@@ -306,12 +242,7 @@ def d1b(chk, prog):
     for trows in tables:
         for orows in others:
             W.reset()
-            model = Model()
-            def merge_contract(it, t, bp=0, stranded=False, combine=None):
-                if not isinstance(bp, int) or stranded:
-                    raise Undecided(f"merge(bp={bp!r}, stranded={stranded!r})")
-                return mk(lit_merge(list(zip(t.cols["chromosome"].v, t.cols["start"].v, t.cols["end"].v)), bp))
-            model.prims["skgenome.merge.merge"] = merge_contract
+            model = Model()              # (merge() runs as written: D3b)
 
             def from_records(it, *a, **k):
                 from ..absmodel import frame_from_records
@@ -324,6 +255,11 @@ def d1b(chk, prog):
             try:
                 out = it.run(fi.qn, [mk(trows), mk(orows)])
             except Undecided as u:
+                if "searchsorted on a literal column that is not sorted" in str(u):
+                    # the subtrahend's rows may come in any order: a binary search over them as they are has no specified result
+                    bad.append(dict(table=trows, other=orows, problem="the rows of the other table are bisected (searchsorted) while not in coordinate order: numpy leaves the result unspecified"))
+                    ran += 1
+                    continue
                 undecided.append(f"{trows} - {orows}: {u}")
                 continue
             except Raised as r:
@@ -353,61 +289,100 @@ def d1b(chk, prog):
     tb.done("a.subtract(b) is not exactly the part of a outside the union of b's rows (per chromosome, rows kept in order)")
 
 
+def lit_flatten(rows):
+    """flatten()'s contract on literal rows: per chromosome, rows that overlap (share a base) are cut at every start / end among them; abutting rows stay apart"""
+    out = []
+    for c in dict.fromkeys(r[0] for r in rows):
+        group, far = [], None
+        def emit(group):
+            if len(group) == 1:
+                out.append(group[0])
+                return
+            cuts = sorted({x for r in group for x in (r[1], r[2])})
+            for a_, b_ in zip(cuts, cuts[1:]):
+                names = list(dict.fromkeys(r[3] for r in group if r[1] <= a_ and r[2] >= b_))
+                out.append((c, a_, b_, ",".join(names)))
+        for r in sorted((r for r in rows if r[0] == c), key=lambda r: (r[1], r[2])):
+            if group and r[1] - far >= 0:
+                emit(group)
+                group, far = [], None
+            group.append(r)
+            far = r[2] if far is None else max(far, r[2])
+        if group:
+            emit(group)
+    return out
+
+
 def d3b(chk, prog):
-    """soundness of the two fast paths on literal small tables: a table returned as it is has nothing left to merge / flatten"""
-    chk.clause("D3b", "merge / flatten fast paths are sound: a table returned unchanged has no rows of one chromosome left to merge (literal small tables, rows in any order)")
+    """merge() and flatten() interpreted whole on literal small tables -- fast path, sorting, grouping, squashing, re-ordering -- against the contract"""
+    chk.clause("D3b", "merge / flatten on literal small tables (rows in any order): the result is the contract's -- nothing left to merge on the fast path, groups by the stated predicate on the slow one")
     grid = [0, 4, 8, 12] if chk.tier != "thorough" else [0, 3, 6, 9, 12]
     ivs = [(a, b) for a in grid for b in grid if a < b]
     rows1 = [(c, s, e) for c in ("a", "b") for s, e in ivs]
     tables = [list(t) for n in (1, 2, 3) for t in itertools.product(rows1, repeat=n)]
+    if chk.tier != "thorough":
+        tables = [t for i, t in enumerate(tables) if len(t) < 3 or i % 4 == 0]
+    # gaps of -3 .. 3 bases next to a pair that does overlap (the slow path is taken): rows one base apart stay apart, rows overlapping by bp - 1 bases too
+    fine = [(s_, e_) for s_ in range(0, 10) for e_ in range(s_ + 1, 11) if e_ - s_ <= 4]
+    tables += [[("a", 0, 4), ("a", 2, 6), ("a",) + iv] for iv in fine] + [[("a",) + iv, ("a", 12, 16), ("a", 14, 18)] for iv in fine if iv[0] >= 6] + [[("a", 0, 4), ("b",) + iv, ("a", 3, 6)] for iv in fine[::5]]
 
     def mk(rows):
-        df = DF({"chromosome": Vec([r[0] for r in rows], aligned=True), "start": Vec([r[1] for r in rows], aligned=True), "end": Vec([r[2] for r in rows], aligned=True)}, len(rows))
+        df = DF({"chromosome": Vec([r[0] for r in rows], aligned=True), "start": Vec([r[1] for r in rows], aligned=True), "end": Vec([r[2] for r in rows], aligned=True),
+                 "gene": Vec([f"g{i}" for i in range(len(rows))], aligned=True)}, len(rows))
         df.exact = True
         return df
 
-    def slow(it, obj, name, args, kw):
-        if isinstance(obj, DF) and name == "sort_values":
-            raise Raised("SlowPath")
-        return NotImplemented
-
     for qn, bps, label in (("skgenome.merge.merge", (0, 2), "merge"), ("skgenome.merge.flatten", (None,), "flatten")):
         fi = prog.fn(qn)
-        tb = Table(chk, "fast-path", f"{label}: table returned unchanged => no two rows of one chromosome overlap"
-                   + (" or lie within bp of each other" if label == "merge" else "") + f" ({len(tables)} literal tables of 1-3 rows on 2 chromosomes" + (", bp 0 and 2)" if label == "merge" else ")"), fi.loc(), fi.qn)
+        tb = Table(chk, "fast-path", f"{label} on {len(tables)} literal tables of 1-3 rows on 2 chromosomes" + (", bp 0 and 2" if label == "merge" else "") + ": the rows (and merged names) of the contract", fi.loc(), fi.qn)
         bad, undecided, fast = [], [], 0
         for rows in tables:
+            named = [r + (f"g{i}",) for i, r in enumerate(rows)]
             for bp in bps:
                 W.reset()
-                model = Model()
-                model.method_hooks.append(slow)
-                it = Interp(prog, model)
+                it = Interp(prog)
                 df = mk(rows)
                 try:
                     out = it.run(qn, [df] + ([bp] if bp is not None else []))
                 except Raised as r:
-                    if r.exc_name == "SlowPath":
-                        continue
-                    undecided.append(f"{rows} bp={bp}: raises {r}")
+                    bad.append(dict(table=rows, bp=bp, raised=str(r)[:120]))
                     continue
                 except Undecided as u:
                     undecided.append(f"{rows} bp={bp}: {u}")
                     continue
-                if out is not df:
-                    undecided.append(f"{rows} bp={bp}: returned another object without sorting")
+                if not isinstance(out, DF) or not all(c in out.cols for c in ("chromosome", "start", "end", "gene")):
+                    undecided.append(f"{rows} bp={bp}: returned {type(out).__name__}")
                     continue
-                fast += 1
+                fast += out is df
+                try:
+                    got = [(out.cols["chromosome"].v[i], int(T(out.cols["start"].v[i]).cval()), int(T(out.cols["end"].v[i]).cval()), out.cols["gene"].v[i]) for i in range(len(out.cols["start"].v))]
+                except Exception as e:
+                    undecided.append(f"{rows} bp={bp}: result not literal ({e})")
+                    continue
                 if label == "merge":
-                    clash = [(r, q) for i, r in enumerate(rows) for q in rows[i + 1:] if r[0] == q[0] and q[1] - r[2] <= -bp and r[1] - q[2] <= -bp]
+                    # the contract of lit_merge, with the names of each group's rows in coordinate order
+                    want = []
+                    for c_ in dict.fromkeys(r[0] for r in named):
+                        cur = None
+                        for r in sorted((r for r in named if r[0] == c_), key=lambda r: (r[1], r[2])):
+                            if cur and r[1] - cur[2] <= -bp:
+                                cur[2] = max(cur[2], r[2])
+                                cur[3].append(r[3])
+                            else:
+                                cur = [c_, r[1], r[2], [r[3]]]
+                                want.append(cur)
+                    want = [(c_, s_, e_, ",".join(dict.fromkeys(n_))) for c_, s_, e_, n_ in want]
                 else:
-                    clash = [(r, q) for i, r in enumerate(rows) for q in rows[i + 1:] if r[0] == q[0] and q[1] < r[2] and r[1] < q[2]]
-                if clash:
-                    bad.append(dict(table=rows, bp=bp, rows_left_unmerged=clash[0]))
+                    want = lit_flatten(named)
+                # (a table returned as it is keeps the caller's row order; otherwise chromosomes in sorted order, rows by position)
+                ok = sorted(got) == sorted(want) if out is df else got == sorted(want, key=lambda r: (r[0], r[1], r[2]))
+                if not ok:
+                    bad.append(dict(table=rows, bp=bp, got=got, want=want, returned_unchanged=out is df))
         if undecided:
-            raise AnalysisError(f"C06-D3b {label}: {len(undecided)} tables undecided, e.g. {undecided[0][:200]}")
+            raise AnalysisError(f"C06-D3b {label}: {len(undecided)} tables undecided, e.g. {undecided[0][:300]}")
         chk.floor(f"{label} fast path taken on literal tables", fast, 10)
         tb.cell(not bad, dict(tables=len(tables) * len(bps), fast_path_taken=fast, counterexamples=bad[:3], n_counterexamples=len(bad)))
-        tb.done(f"{label}() returns some tables unchanged although rows of one chromosome still overlap" + (" / abut" if label == "merge" else ""))
+        tb.done(f"{label}() does not return the contract's rows: rows of one chromosome that overlap" + (" / abut / lie within bp" if label == "merge" else "") + " are left apart, or rows that do not are joined / cut")
 
 
 # ---------------------------------------------------------------------------------------------- D4
@@ -568,8 +543,15 @@ class FInt:
 
 def d5(chk, prog, spans):
     chk.clause("D5", "subdivide: pieces chain from row.start to row.end, count = int(round(span/avg)) or 1, regions below min_size skipped")
-    fi = prog.fn("skgenome.subdivide._split_targets")
-    tb = Table(chk, "subdivide-chaining", "_split_targets pieces (symbolic start; spans giving 1..7 bins; float quotients tracked)", fi.loc(), fi.qn)
+    fi = prog.fn("skgenome.subdivide.subdivide")
+    tb = Table(chk, "subdivide-chaining", "subdivide pieces (symbolic start; spans giving 1..7 bins; float quotients tracked)", fi.loc(), fi.qn)
+
+    def rows_of(out):
+        """the rows of the table subdivide returns (the generator behind it is reached through it, whatever it is called)"""
+        if not isinstance(out, DF):
+            raise Undecided(f"subdivide returned {type(out).__name__}")
+        n = len(out.cols["start"].v) if "start" in out.cols else 0
+        return [Row({c: v.v[i] for c, v in out.cols.items() if not c.startswith("__")}) for i in range(n)]
     model = Model()
     model.prims["skgenome.merge.merge"] = lambda it, table, *a, **k: table          # backed by D1-D3 (merge is checked there)
 
@@ -585,7 +567,7 @@ def d5(chk, prog, spans):
         it = Interp(prog, model)
         s, e = Coord(0), Coord(span)
         df = DF({"chromosome": Vec(["chr1"]), "start": Vec([s]), "end": Vec([e]), "gene": Vec(["G"])}, 1)
-        out = tb.guard(lambda: it.run(fi.qn, [df, avg, min_size, False]), f"span={span} avg={avg} min={min_size}")
+        out = tb.guard(lambda: rows_of(it.run(fi.qn, [df, avg, min_size, False])), f"span={span} avg={avg} min={min_size}")
         if out is None:
             continue
         pieces = [(r.start, r.end) for r in out]
@@ -620,7 +602,7 @@ def d5(chk, prog, spans):
     m2.prims["skgenome.merge.merge"] = merging
     it = Interp(prog, m2)
     df = DF({"chromosome": Vec(["chr1", "chr1"]), "start": Vec([Coord(0), Coord(6)]), "end": Vec([Coord(6), Coord(12)]), "gene": Vec(["G", "G"])}, 2)
-    out = tb.guard(lambda: it.run(fi.qn, [df, 100, 10, False]), "abutting short rows")
+    out = tb.guard(lambda: rows_of(it.run(fi.qn, [df, 100, 10, False])), "abutting short rows")
     if out is not None:
         pieces = [(r.start, r.end) for r in out]
         tb.cell(len(pieces) == 1 and pieces[0][0].off == 0 and pieces[0][1].off == 12 and seen.get("rows_in") == [0, 1],
@@ -634,7 +616,8 @@ def run(chk):
     chk.trust("Python grammar via ast", "pandas >= 3: pd.unique rejects list input; Series.clip / cummax semantics (absmodel.py)",
               "merge() returns a sorted, disjoint, non-nested table (its own predicate is checked in D3)")
     chk.assume("exact arithmetic over the rationals")
-    d1(chk, prog)
+    # (an earlier D1 showed by reaching definitions that the subtrahend passes merge() before the private subtraction helper, whose edge arithmetic needs it sorted and
+    #  non-nested; D1b decides the same on literal tables -- nested, overlapping, unsorted subtrahends -- with merge() and the helper running as written: retired)
     d1b(chk, prog)
     from . import C07
     C07.d6(chk, prog)            # subtraction / intersection are per chromosome: the pairing of by_shared_chroms (C07-D6 rule)
